@@ -48,14 +48,23 @@ func NewTernarySampler(prng sampling.PRNG, baseRing *Ring, X Ternary, montgomery
 // AtLevel returns an instance of the target TernarySampler to sample at the given level.
 // The returned sampler cannot be used concurrently to the original sampler.
 func (ts *TernarySampler) AtLevel(level int) Sampler {
-	return &TernarySampler{
+	tsAtLevel := &TernarySampler{
 		baseSampler:  ts.baseSampler.AtLevel(level),
 		matrixProba:  ts.matrixProba,
 		matrixValues: ts.matrixValues,
 		invDensity:   ts.invDensity,
 		hw:           ts.hw,
-		sample:       ts.sample,
 	}
+
+	// The sampling method must be bound to the new instance: ts.sample is
+	// bound to the receiver and would sample at the level of the receiver.
+	if ts.hw != 0 {
+		tsAtLevel.sample = tsAtLevel.sampleSparse
+	} else {
+		tsAtLevel.sample = tsAtLevel.sampleProba
+	}
+
+	return tsAtLevel
 }
 
 // Read samples a polynomial into pol.
